@@ -141,3 +141,37 @@ func Harness_C16_PosToFilePosInfo() {
 	verifAssert(r.LineNum >= 1 && r.ColNum >= 1, "positions are 1-based")
 	verifCover("end")
 }
+
+// white space longer than the all-symbolic buffers, structured: a run of
+// blanks / block comments / a line comment in sequence, one symbolic byte
+// inside each comment and two after the run: scanSpaceToken terminates inside
+// the buffer (budget = unwinding assertion) wherever it starts
+func Harness_C16_SpaceRuns() {
+	pieces := []string{" ", "\t", "/*", "//"}
+	buf := ""
+	n := 1 + verifChoice("pieces", 4)
+	for k := 0; k < n; k++ {
+		switch pieces[verifChoice("piece"+itoaV(k), len(pieces))] {
+		case " ":
+			buf += " "
+		case "\t":
+			buf += "\t"
+		case "/*":
+			buf += "/*" + symBuf("c"+itoaV(k), 1) + "*/"
+		default:
+			buf += "//" + symBuf("l"+itoaV(k), 1) + "\n"
+		}
+	}
+	if verifChoice("open", 2) == 1 {
+		buf += "/* " + symBuf("o", 1) // an unterminated comment at the end
+	}
+	buf += symBuf("tail", 2)
+	pos := verifChoice("pos", 3)
+	verifAssume(pos <= len(buf))
+	var tk Token
+	p, _ := tryRun(func() { tk = scanSpaceToken(buf, pos) })
+	if !p {
+		c16Inside(buf, pos, tk)
+	}
+	verifCover("end")
+}
